@@ -25,6 +25,7 @@ let j_op j = match jlist j with
   | [JStr "sethist"; a] -> SetHist (j_addr a)
   | [JStr "gap"; a] -> Gap (j_addr a)
   | [JStr "gapchain"; c] -> GapChain (jn c)
+  | [JStr "restart"] -> Restart
   | _ -> raise (Model_error "bad op")
 let of_kind = function
   | PKH a -> of_addr a
